@@ -175,8 +175,11 @@ def _job(args):
             if c["rel"] and c["edges"]:
                 out["nontrivial"] += 1
         res = common.model_run(wire)
-        for (enc, r, case), w, m in zip(metas, wire, res):
+        wres = common.model_run([[36, w[1]] for w in wire])      # fn 36: every generated rule evaluated over the worklist loops
+        for (enc, r, case), w, m, mw in zip(metas, wire, res, wres):
             mo = enc.dec_outcome(m)
+            if mw == [9] or mw is None or enc.dec_outcome(mw) != mo:
+                mo = ("ERR", "model: worklist evaluation differs from comprehension evaluation (or ran out of fuel)")
             if not rules.same_verdict(r, mo) or not rules.same_lines(r, mo):
                 out["disagreements"].append((dict(case, model=[mo[0], rules._jsonable_lines(mo[1])]), "model and implementation differ on a diagram rule"))
         out["pairs"].append((wire[0], res[0]))
